@@ -1,4 +1,5 @@
 import Hive.Proofs.WorkerPoolLog
+import Hive.Proofs.WorkerPoolGroup
 import Hive.Model.WorkerPoolSched
 /-!
 # C16 — WorkerPool conserves tasks and always shuts down
@@ -220,3 +221,33 @@ theorem C16_restart_example :
   decide
 
 end Hive.WP
+
+/-! ### groups -/
+namespace Hive.WPG
+
+/-- **C16, group-level waits.**  Over every tree of groups and pools built by `CreateGroup` /
+`CreatePool` in any order, and every interleaving of the pools' counter increases (task accepted) and
+decreases (task finished) — each with its subscriber chain up the tree —
+* every group's `PendingChildrenCounter` equals the number of its children (pools and sub-groups)
+  whose own counter is non-zero, and
+* `Group.WaitChildren()` on group `g` can return (`PendingChildrenCounter = 0`) only when every pool
+  and every group below `g`, at any depth, has a zero counter: no pool below has pending tasks. -/
+theorem C16_group_wait (ops : List Op) :
+    let t := run [] ops
+    (∀ g, isGroup t g = true → val t g = cntKids t g) ∧
+    (∀ g q fuel, waitChildrenReturns t g = true → below fuel t g q = true → val t q = 0) := by
+  intro t
+  have h : Inv t := inv_run [] ops inv_nil
+  refine ⟨fun g hg => h.eq g hg, ?_⟩
+  intro g q fuel hw hb
+  exact below_zero fuel t h g q hb (by simpa [waitChildrenReturns] using hw)
+
+/-- Non-vacuity: root group 0 with pool 1 and sub-group 2 holding pools 3 and 4; tasks come and go. -/
+theorem C16_group_example :
+    let t := run [] [.newGroup none, .newPool 0, .newGroup (some 0), .newPool 2, .newPool 2,
+      .inc 3, .inc 3, .inc 4, .inc 1, .dec 3, .dec 1, .dec 3]
+    t.map (·.value) = [1, 0, 1, 0, 1] ∧ below 5 t 0 4 = true ∧ waitChildrenReturns t 0 = false ∧
+      waitChildrenReturns (run t [.dec 4]) 0 = true := by
+  decide
+
+end Hive.WPG
